@@ -27,8 +27,9 @@ func runC02(c *Ctx) {
 		"every case is run through lossless.Encode with predictor 0..7 and lossless14sv1.Encode and decoded back; " +
 		"contents: noise, 0/2^P-1 alternation, ramps, constant, smooth walk, extreme-value mix, difference -32768 (P=16), " +
 		"Fibonacci category counts (17-deep code before limiting); sizes random up to 64 (quick) / 512 (thorough), w=1, h=1, " +
-		"65535x1 and 1x65535 (thorough); exhaustive: all images of all geometries 1x1..3x3 with one component at P=2 " +
-		"(w*h<=6 in quick, plus 3x3 and P=3 with w*h<=6 in thorough), all 1x1,1x2,2x1 three-component images at P=2; " +
+		"65535x1 and 1x65535 (thorough); small geometries 1x1..3x3 with one component at P=2: every image when there are " +
+		"at most 256 of them, else a regular sample of 256/384 images in quick and every image in thorough (also P=3 " +
+		"with w*h<=6 and 2x2x3 at P=2 in thorough); all 1x1,1x2,2x1 three-component images at P=2; " +
 		"non-trivial = not all samples equal"
 	if c.Replay != "" {
 		replayC02(c)
@@ -226,15 +227,14 @@ func dhtOf(s []byte) string {
 	return ""
 }
 
-// exhaustiveC02: every image of the small geometries.
+// exhaustiveC02: every image of the small geometries (thorough), or every image of the
+// geometries with w*h <= 4 and a regular sample of 384 images of the larger ones (quick).
 func exhaustiveC02(c *Ctx) {
 	type geo struct{ w, h, comps, p int }
 	var geos []geo
 	for w := 1; w <= 3; w++ {
 		for h := 1; h <= 3; h++ {
-			if w*h <= 6 || c.Thor {
-				geos = append(geos, geo{w, h, 1, 2})
-			}
+			geos = append(geos, geo{w, h, 1, 2})
 			if c.Thor && w*h <= 6 {
 				geos = append(geos, geo{w, h, 1, 3})
 			}
@@ -249,27 +249,35 @@ func exhaustiveC02(c *Ctx) {
 		if n < 0 {
 			continue
 		}
-		// the model sees every image when there are few, otherwise a regular sample
+		// which indices are visited: all (thorough, or small spaces), else a regular sample
+		visit := n
+		step := 1
+		if !c.Thor && n > 4096 {
+			visit = 384
+			step = n/visit | 1
+		} else if !c.Thor && n > 256 {
+			visit = 256
+			step = n/visit | 1
+		}
+		// the model sees every visited image when there are few, otherwise a regular sample
 		stride := 1
-		if n > 512 {
-			stride = n / 512
-			if stride%2 == 0 {
-				stride++
-			}
+		if visit > 64 {
+			stride = visit/64 | 1
 		}
 		const chunk = 1024
-		nchunks := (n + chunk - 1) / chunk
+		nchunks := (visit + chunk - 1) / chunk
 		g := g
 		ParallelFor(nchunks, c.Work, func(ci int) {
-			for idx := ci * chunk; idx < n && idx < (ci+1)*chunk; idx++ {
+			for vi := ci * chunk; vi < visit && vi < (ci+1)*chunk; vi++ {
+				idx := (vi * step) % n
 				im := exhaustiveImg(g.w, g.h, g.comps, g.p, idx)
 				px := im.Bytes()
 				nt := im.Nontrivial()
 				key := fmt.Sprintf("ex:%dx%dx%d@%d:%d", g.w, g.h, g.comps, g.p, idx)
-				corr := idx%stride == 0
+				corr := vi%stride == 0
 				for _, pred := range allCodecs {
 					c.R.Case(key+":"+predLabel(pred), nt, "kind.exhaustive", "P."+itoa(g.p), "comps."+itoa(g.comps), predLabel(pred), "size.le9")
-					oracleC02(c, im, px, pred, corr && (stride == 1 || pred == 1+idx/stride%7 || pred == predSV1))
+					oracleC02(c, im, px, pred, corr && (stride == 1 || pred == 1+vi/stride%7 || pred == predSV1))
 				}
 			}
 		})
